@@ -35,6 +35,41 @@ CHECKS.update({
                 design='4.20'),
 })
 
+CHECKS.update({
+    'C06': dict(level='proof', technique='data rules on the compiled tables (exhaustive) + decision-list extraction from the MIR of maximize by path-sensitive abstract interpretation, compared with the specified cascade',
+                text='Proof by composition: every row of the six tables equals the CLDR entry and each table is strictly sorted in the order its binary search uses (exhaustive data rules); '
+                     'the lookup cascade read from the MIR of likelysubtags::maximize equals the decision list of the property for all 8 presence patterns (table, key parameters, byte order, '
+                     'width, column order, extractor projection, first hit returned, row value decoded, given subtags kept, "unchanged" exactly when full or all miss); integer encoders/decoders are '
+                     'inverse; LanguageIdentifier::maximize writes the triple back.',
+                note='Trusted: std binary_search_by_key / Option combinators, rustc MIR, the factgen printer, the checker-side CLDR reader. The UTS #35 fallbacks the property leaves open are the "unchanged" default.',
+                design='4.6'),
+    'C07': dict(level='proof', technique='decision-list extraction from MIR (origins of each result component per path) + table completeness data rule + write-set analysis of the method',
+                text='Proof of the structural obligations from which the algebraic laws follow for any table contents: on every hit path each result component is the caller\'s own subtag or the '
+                     'found row\'s component and a given subtag outside the key is never replaced; key components agree with the row (data); every row value has all three components; all-present '
+                     'input returns "unchanged" before any lookup; the method writes exactly language/script/region, only on success, returns true exactly then; no Locale-level code writes extensions.',
+                note='Trusted: std Option combinators; rustc MIR; the factgen printer.',
+                design='4.7'),
+    'C08': dict(level='proof', technique='decision-list extraction from the MIR of minimize with maximize as an uninterpreted pure function (path-sensitive abstract interpretation), purity and write-set rules',
+                text='Proof of structural obligations S1-S7 (DESIGN 4.8) on every path of likelysubtags::minimize: max := input if full else maximize(input)?; trials (l), (l,r), (l,s) over components '
+                     'of max only, in that order; a form is returned only under maximize(form) == Some(max) and is exactly that trial; "unchanged" only after all applicable trials failed; maximize is pure; '
+                     'the method writes only language/script/region on success and nothing otherwise. The laws of the property are consequences of S1-S7 for any table contents.',
+                note='"never lengthens" is decided as the number of script/region subtags (trial forms are sub-forms of the maximized identifier); string length of the language subtag is data. Trusted: derived PartialEq on tuples.',
+                design='4.8'),
+    'C11': dict(level='proof', technique='symbolic truth tables: path-sensitive exploration of the matches bodies (callees inlined), each path compared with the wildcard formula under every completion of its partial valuation',
+                text='Proof over all operand pairs and flag pairs: every decision path of LanguageIdentifier::matches, Language::matches and the private helpers returns what the formula '
+                     'AND_f((ra & empty_a[f]) | (rb & empty_b[f]) | a[f]==b[f]) gives over the four fields; Locale::matches is false when either private list is non-empty and otherwise exactly '
+                     'id.matches(other.id, flags) with no other input read; AsRef impls return self / the embedded id.',
+                note='Trusted: derived PartialEq on Option/Box<[T]> is structural equality; Some(empty list) treated as empty (never occurs).',
+                design='4.11'),
+    'C14': dict(level='proof', technique='data rules on the direction constants + decision-list extraction from the MIR of character_direction, applied by the checker to the CLDR layout data with a checker-side model of maximize',
+                text='Proof (exhaustive over the data): the four direction constants equal the sets derivable from the 710 layout files and are pairwise disjoint; character_direction is a decision list of '
+                     'interpretable atoms in both configurations and never reads variants; applying that list (with a dictionary model of maximize from likelySubtags.json) yields CLDR characterOrder for '
+                     'every layout locale with likelysubtags, and without it differs only for script-less identifiers of multi-direction languages; a listed script decides alone; unlisted script + never-RTL '
+                     'language is LTR; RTL languages x every region follow the likely-script refinement.',
+                note='The model of maximize used for the refinement is the cascade that C06 proves of the code. Quick tier samples the likely-subtags language universe (all layout languages + every 25th); thorough uses all.',
+                design='4.14'),
+})
+
 NOT_YET = {}
 
 
